@@ -802,3 +802,7 @@ mod test {
         assert!(!sample_parsed().matches(&filter));
     }
 }
+
+#[cfg(any(kani, verif_replay))]
+#[path = "/verif/kani/btp_gatt.rs"]
+pub(crate) mod verif_kani_btp_gatt;
